@@ -202,9 +202,10 @@ def main():
                for i, c in list(enumerate(cases))[:: max(1, len(cases) // 6)][:6]]
     samples += [{"obligation": t, "axioms": axioms.get(t)} for (t, _) in thms[:4]]
     ev = {
-        "property_id": prop, "tier": tier, "seed": seed, "level": "proof",
+        "property_id": prop, "tier": tier, "seed": seed, "level": "proof" if obligations > 0 else "other",
         "coverage": {
-            "obligations": max(obligations, 1), "discharged": discharged,
+            "obligations": obligations, "discharged": discharged,
+            "explanation": "Lean theorems (obligations) re-checked by the kernel + differential correspondence of code vs Lean Impl model vs Lean Spec",
             "checker_cmd": "cd /verif/lean && lake build " + " ".join(mods) + " && lake env lean <#print axioms audit>"
                            + (" && lake env leanchecker <module>" if tier == "thorough" else ""),
             "trusted_base": getattr(P, "TRUSTED", []) + [
